@@ -117,17 +117,11 @@ def first_calls(fn, start, targets, stop):
     return found
 
 
-def run(prog, chk):
-    chk.level = "other"
-    chk.explanation = ("Two necessary conditions of correct parsing, decided exhaustively over finite tables: the scanner's "
-                       "character-class and metaclass tables (reconstructed from INIT_V2_SCANNER / SET_V1 stores in "
-                       "cif_parse_internal) equal the CIF 2.0 / 1.1 lexical grammar, and every grammar production that "
-                       "accepts values accepts all five value-starting token kinds and dispatches them alike; reserved-word "
-                       "recognisers agree.  Does not decide the scanner's transitions or decode_text on arbitrary documents.")
-    tabs = scantab.ScannerTables(prog)
-
-    r1 = chk.rule("R1-class-table", "char_class / meta_class as initialised for CIF 2.0 and patched for CIF 1.1 equal the "
-                  "lexical grammar (160 code points x 2 dialects, 7 metaclass rows)", floor=160)
+def class_table_rule(prog, chk, tabs=None, rid="R1", primary=True):
+    if tabs is None:
+        tabs = scantab.ScannerTables(prog)
+    r1 = chk.rule(rid + "-class-table", "char_class / meta_class as initialised for CIF 2.0 and patched for CIF 1.1 equal the "
+                  "lexical grammar (160 code points x 2 dialects, 7 metaclass rows)", floor=160, primary=primary)
     fn = tabs.fn
     for version in (2, 1):
         exp = expected_char_class(version)
@@ -160,9 +154,12 @@ def run(prog, chk):
             r1.violation(fn.file, fn.name, fn.line, "class-code-clash:%d" % val, "classes %s share the code %d" % (sorted(names), val))
     chk.extra_cov["dynamic_table_stores"] = ["L%s %s (option-driven extra ws/eol characters)" % d for d in tabs.dynamic]
 
-    r2 = chk.rule("R2-value-dispatch", "every switch on the token type that accepts one value-starting token accepts all five "
+
+
+def value_dispatch_rule(prog, chk, rid="R2", primary=True):
+    r2 = chk.rule(rid + "-value-dispatch", "every switch on the token type that accepts one value-starting token accepts all five "
                   "(OLIST OTABLE TVALUE QVALUE VALUE) and dispatches them alike; parse_value is reached only under them; "
-                  "parse_container names every token kind", floor=6)
+                  "parse_container names every token kind", floor=6, primary=primary)
     enum = prog.enums.get("token_type")
     if not enum:
         raise Broken("enum token_type not found")
@@ -240,6 +237,20 @@ def run(prog, chk):
                         ok_default = True
         (r2.ok if ok_default else r2.info)("%s:default-is-internal-error" % pf.name, "")
 
+
+
+def run(prog, chk):
+    chk.level = "other"
+    chk.explanation = ("Two necessary conditions of correct parsing, decided exhaustively over finite tables: the scanner's "
+                       "character-class and metaclass tables (reconstructed from INIT_V2_SCANNER / SET_V1 stores in "
+                       "cif_parse_internal) equal the CIF 2.0 / 1.1 lexical grammar, and every grammar production that "
+                       "accepts values accepts all five value-starting token kinds and dispatches them alike; reserved-word "
+                       "recognisers agree.  Does not decide the scanner's transitions or decode_text on arbitrary documents.")
+    tabs = scantab.ScannerTables(prog)
+
+    class_table_rule(prog, chk, tabs)
+    value_dispatch_rule(prog, chk)
+
     r3 = chk.rule("R3-reserved-words", "reserved-word recognisers agree: next_token's class chains, scan_unquoted's "
                   "data_/save_ class arrays", primary=False, floor=5)
     words = scantab.next_token_words(prog)
@@ -284,6 +295,7 @@ def run(prog, chk):
     # shared with C08 (R6 there): what the document denotes does not depend on where the reads of the character source end
     from . import c08
     c08.source_accounting(prog, chk)
+    c08.stale_pointer_rule(prog, chk, rid="R7", primary=False)
 
     r6 = chk.rule("R6-bracket-arms-agree", "in scan_unquoted the arms for opening and for closing brackets decide `this is not a "
                   "data_/save_ header, the bracket ends the value` with the same condition: both kinds of bracket end an unquoted "
